@@ -440,7 +440,7 @@ func genValidDef(r *vh.Rand, i int, name, pp string) string {
 }
 
 // genScenTimed: scenarios of 2-4 sent steps with THINK TIME after steps (`name(1,ms)` / `sleep(ms)`) and a
-// target whose answers take time, under a request timeout of 1 s / 2 s.  The property gives every call
+// target whose answers take time, under a request timeout of 1 s / 2 s / none configured (15 s per call).  The property gives every call
 // the configured timeout from the moment it is issued, so: latencies well below the timeout (<= T-500 ms:
 // answered, whatever was slept or waited for before) or well above it (T+300 ms: that call is a 504
 // sample, the next steps are sent all the same); think times up to more than the whole timeout.
@@ -452,7 +452,12 @@ func genScenTimed(r *vh.Rand) string {
 	for i := 0; i < nshots; i++ {
 		order = append(order, fmt.Sprint(r.Intn(ninst)))
 	}
-	T := r.PickInt([]int{1000, 1000, 2000})
+	// the configured timeout (0 = none configured: 15 s per call) and the timeout in effect
+	conf := r.PickInt([]int{1000, 1000, 1000, 2000, 2000, 0})
+	T := conf
+	if T == 0 {
+		T = 15000
+	}
 	nu := r.Range(1, 3)
 	var users []string
 	for i := 0; i < nu; i++ {
@@ -504,7 +509,7 @@ func genScenTimed(r *vh.Rand) string {
 		}
 		// think time after the step
 		if k < nsteps-1 || r.Chance(1, 4) {
-			sl := r.PickInt([]int{0, 100, 300, 600, 700, 1100, T + 100})
+			sl := r.PickInt([]int{0, 100, 300, 600, 700, 1100, T + 100}) // capped by the budget below
 			if sl > budget {
 				sl = budget / 100 * 100
 			}
@@ -521,7 +526,7 @@ func genScenTimed(r *vh.Rand) string {
 	for i := 0; i < nshots; i++ {
 		all = append(all, plan...)
 	}
-	return fmt.Sprintf("scen %d %d %s %s %s %s%s fl=p%s", ninst, T, strings.Join(order, ","),
+	return fmt.Sprintf("scen %d %d %s %s %s %s%s fl=p%s", ninst, conf, strings.Join(order, ","),
 		strings.Join(users, ","), strings.Join(defs, "|"), scen, genReflMeta(r), strings.Join(all, "."))
 }
 
